@@ -201,9 +201,14 @@ def inspect (ks : List Bytes) : Except AddrErr (List Address) := inspectGo ks []
 def siteOf (a : Address) (bind : Bytes) (v : TLSVariant) : Site :=
   applyTLS v { scheme := a.scheme, host := a.host, port := a.port, listen := bind }
 
+/-- the same for a site block with several `tls` directives, in the order of the Casketfile -/
+def siteOfL (a : Address) (bind : Bytes) (vs : List TLSVariant) : Site :=
+  applyTLSs vs { scheme := a.scheme, host := a.host, port := a.port, listen := bind }
+
 /-- setupTLS fails for `tls self_signed` on a site without host name ("self-signed: certificate has no names"),
-which aborts the load -/
-def directiveError (c : Site) : Bool := c.selfSigned && c.host.isEmpty
+which aborts the load; the certificate is generated after the directive loop, so not when a `tls off` returned before
+(`enabled` is false exactly then, whenever a self_signed directive was read) -/
+def directiveError (c : Site) : Bool := c.selfSigned && c.host.isEmpty && c.enabled
 
 /-! ## the same functions with the configured HTTP / HTTPS ports as a parameter
 
